@@ -617,6 +617,8 @@ class dir_archive(archive):
                 raise KeyError(key)
                #raise OSError("error reading directory for '%s'" % key)
             finally:
+                # a failed import may leave (an empty namespace) package behind
+                sys.modules.pop(base+_arg, None); sys.modules.pop(base, None)
                 sys.dont_write_bytecode = _dwb
                 sys.path.remove(root)
         return memo
